@@ -122,11 +122,17 @@ def op_run(op, cfg, state, seed, keyname):
         return (canon(h.get_uris), canon(h.get_verb), canon(h.submit_uri), canon(h.submit_verb), norm_transform(h.transform_get),
                 norm_transform(h.transform_submit), norm_transform(h.transform_response))
     if kind == "client":
-        c = client.HttpBeaconClient()
-        c.run(cfg, dry_run=True, beacon_id=1234, user="u", computer="c", process="p.exe")
+        # one client object per history, set up again and again under changing identities: every set-up is what a new client
+        # gives for that identity (session keys of the decoder it talks through included)
+        c = state.get("client")
+        if c is None:
+            c = state["client"] = client.HttpBeaconClient()
+        bid = 1234 + seed % 1000
+        c.run(cfg, dry_run=True, beacon_id=bid, user="u", computer="c", process="p.exe")
         state["c2http"] = c.c2http
+        want_keys = tuple(c2.BeaconKeys.from_aes_rand(c.aes_rand))[:2]
         return (c.beacon_id, c.task_url, c.callback_url, c.user_agent, c.host_header, c.sleeptime, c.jitter, canon(c.get_verb), canon(c.submit_verb),
-                norm_transform(c.c2http.transform_response))
+                norm_transform(c.c2http.transform_response), (c.aes_key, c.hmac_key) == want_keys, tuple(c.c2http.beacon_keys)[:2] == want_keys)
     if kind == "profile":
         return ("s", c2profile.C2Profile.from_beacon_config(cfg).as_text())
     if kind == "transform":
